@@ -22,6 +22,7 @@ import (
 	"encoding/json"
 	"fmt"
 	"os"
+	"regexp"
 	"runtime"
 	"runtime/pprof"
 	"sort"
@@ -41,10 +42,6 @@ import (
 
 var run *ev.Run
 var stopProfile = func() {}
-
-type viol struct {
-	key, what string
-}
 
 // pending violations are gathered per key (first case in enumeration order wins) and
 // reported at the end in sorted order, so the report is deterministic.
@@ -102,6 +99,24 @@ func guard(ctx string, c interface{}, f func()) {
 		}
 	}()
 	f()
+}
+
+var (
+	reTxPrefix = regexp.MustCompile(`reading transaction \d+: `)
+	reDigits   = regexp.MustCompile(`\d+`)
+	reNonAlnum = regexp.MustCompile(`[^a-z0-9N]+`)
+)
+
+// errKey turns a decoder error into a structural key: the same decoding failure reached
+// through the text form, JSON, a block or any P2P wrapper gets the same key.
+func errKey(err error) string {
+	t := reTxPrefix.ReplaceAllString(err.Error(), "")
+	t = reDigits.ReplaceAllString(t, "N")
+	t = strings.Trim(reNonAlnum.ReplaceAllString(strings.ToLower(t), "-"), "-")
+	if len(t) > 70 {
+		t = t[:70]
+	}
+	return "decode-error-" + t
 }
 
 func fieldAt(root *model.Node, off int) string {
@@ -295,7 +310,7 @@ func checkTx(class string, m *model.Tx, wrappers bool) {
 		}
 		got := &types.Tx{}
 		if err := got.UnmarshalText(text); err != nil {
-			report("tx-decode-error", "UnmarshalText(MarshalText(v)): "+err.Error(), describeTx(m))
+			report(errKey(err), "tx UnmarshalText(MarshalText(v)): "+err.Error(), describeTx(m))
 			run.Outcome("tx-decode-error")
 			return
 		}
@@ -310,7 +325,7 @@ func checkTx(class string, m *model.Tx, wrappers bool) {
 			report("tx-json-error", err.Error(), describeTx(m))
 			ok = false
 		} else if err := json.Unmarshal(js, &back); err != nil {
-			report("tx-json-error", err.Error(), describeTx(m))
+			report(errKey(err), "tx json form: "+err.Error(), describeTx(m))
 			ok = false
 		} else if !sameTx("tx json form", types.NewTx(back), w, enc) {
 			ok = false
@@ -323,7 +338,7 @@ func checkTx(class string, m *model.Tx, wrappers bool) {
 			} else if g := viaWire("TransactionMessage", tm, describeTx(m)); g != nil {
 				t2, err := g.(*msgs.TransactionMessage).GetTransaction()
 				if err != nil {
-					report("msg-getter-error-transaction", err.Error(), describeTx(m))
+					report(errKey(err), "TransactionMessage.GetTransaction: "+err.Error(), describeTx(m))
 					ok = false
 				} else if !sameTx("TransactionMessage", t2, w, enc) {
 					ok = false
@@ -402,7 +417,7 @@ func checkHeader(class string, h *model.Header) {
 		}
 		var got types.BlockHeader
 		if err := got.UnmarshalText(text); err != nil {
-			report("header-decode-error", err.Error(), c)
+			report(errKey(err), "header UnmarshalText(MarshalText(v)): "+err.Error(), c)
 			run.Outcome("header-decode-error")
 			return
 		}
@@ -422,8 +437,11 @@ func checkHeader(class string, h *model.Header) {
 			ok = false
 		} else if g := viaWire("HeadersMessage", hm, c); g != nil {
 			hs, err := g.(*msgs.HeadersMessage).GetHeaders()
-			if err != nil || len(hs) != 1 {
-				report("msg-getter-error-headers", fmt.Sprintf("GetHeaders: %d headers, err %v", len(hs), err), c)
+			if err != nil {
+				report(errKey(err), "HeadersMessage.GetHeaders: "+err.Error(), c)
+				ok = false
+			} else if len(hs) != 1 {
+				report("msg-getter-count-headers", fmt.Sprintf("GetHeaders: %d headers", len(hs)), c)
 				ok = false
 			} else if !headerClauses("HeadersMessage", hs[0], h, hash, c) {
 				ok = false
@@ -525,7 +543,7 @@ func checkBlock(class string, b *model.Block) {
 			refF := rootF.Bytes()
 			got := &types.Block{}
 			if err := got.UnmarshalText(text); err != nil {
-				bad("block-decode-error-"+f.name, err.Error())
+				bad(errKey(err), "block "+f.name+" form: "+err.Error())
 				continue
 			}
 			blockClauses("block "+f.name+" form", got, f.hd, f.tx)
@@ -546,7 +564,7 @@ func checkBlock(class string, b *model.Block) {
 				// a BlockHeader can be read from the header-only and the full form
 				var bh types.BlockHeader
 				if err := bh.UnmarshalText(text); err != nil {
-					bad("header-decode-error-from-block-"+f.name, err.Error())
+					bad(errKey(err), "header read from block "+f.name+" form: "+err.Error())
 				} else if !headerClauses("header from block "+f.name+" form", &bh, &b.Header, hash, c) {
 					ok = false
 				}
@@ -571,7 +589,7 @@ func checkBlock(class string, b *model.Block) {
 		} else {
 			got := &types.Block{}
 			if err := json.Unmarshal(js, got); err != nil {
-				bad("block-json-error", err.Error())
+				bad(errKey(err), "block json form: "+err.Error())
 			} else {
 				blockClauses("block json form", got, true, true)
 			}
@@ -582,7 +600,7 @@ func checkBlock(class string, b *model.Block) {
 		} else if g := viaWire("BlockMessage", bm, c); g != nil {
 			got, err := g.(*msgs.BlockMessage).GetBlock()
 			if err != nil {
-				bad("msg-getter-error-block", err.Error())
+				bad(errKey(err), "BlockMessage.GetBlock: "+err.Error())
 			} else {
 				blockClauses("BlockMessage", got, true, true)
 			}
@@ -592,7 +610,7 @@ func checkBlock(class string, b *model.Block) {
 		} else if g := viaWire("MineBlockMessage", mm, c); g != nil {
 			got, err := g.(*msgs.MineBlockMessage).GetMineBlock()
 			if err != nil {
-				bad("msg-getter-error-mineblock", err.Error())
+				bad(errKey(err), "MineBlockMessage.GetMineBlock: "+err.Error())
 			} else {
 				blockClauses("MineBlockMessage", got, true, true)
 			}
@@ -601,8 +619,10 @@ func checkBlock(class string, b *model.Block) {
 			bad("msg-construct-error-blocks", err.Error())
 		} else if g := viaWire("BlocksMessage", bsm, c); g != nil {
 			got, err := g.(*msgs.BlocksMessage).GetBlocks()
-			if err != nil || len(got) != 2 {
-				bad("msg-getter-error-blocks", fmt.Sprintf("%d blocks, err %v", len(got), err))
+			if err != nil {
+				bad(errKey(err), "BlocksMessage.GetBlocks: "+err.Error())
+			} else if len(got) != 2 {
+				bad("msg-getter-count-blocks", fmt.Sprintf("%d blocks", len(got)))
 			} else {
 				blockClauses("BlocksMessage[0]", got[0], true, true)
 				blockClauses("BlocksMessage[1]", got[1], true, true)
@@ -613,7 +633,7 @@ func checkBlock(class string, b *model.Block) {
 		} else if g := viaWireConsensus("BlockProposeMsg", pm, c); g != nil {
 			got, err := g.(*consensusmgr.BlockProposeMsg).GetProposeBlock()
 			if err != nil {
-				bad("msg-getter-error-blockpropose", err.Error())
+				bad(errKey(err), "BlockProposeMsg.GetProposeBlock: "+err.Error())
 			} else {
 				blockClauses("BlockProposeMsg", got, true, true)
 			}
@@ -623,8 +643,10 @@ func checkBlock(class string, b *model.Block) {
 			bad("msg-construct-error-transactions", err.Error())
 		} else if g := viaWire("TransactionsMessage", tsm, c); g != nil {
 			got, err := g.(*msgs.TransactionsMessage).GetTransactions()
-			if err != nil || len(got) != len(refs) {
-				bad("msg-getter-error-transactions", fmt.Sprintf("%d txs, err %v", len(got), err))
+			if err != nil {
+				bad(errKey(err), "TransactionsMessage.GetTransactions: "+err.Error())
+			} else if len(got) != len(refs) {
+				bad("msg-getter-count-transactions", fmt.Sprintf("%d txs", len(got)))
 			} else {
 				for i, t := range got {
 					if !sameTx("TransactionsMessage", t, refs[i], refs[i].ref) {
@@ -647,7 +669,7 @@ func checkBlock(class string, b *model.Block) {
 			gm := g.(*msgs.MerkleBlockMessage)
 			var bh types.BlockHeader
 			if err := bh.UnmarshalText(gm.RawBlockHeader); err != nil {
-				bad("msg-getter-error-merkleblock", err.Error())
+				bad(errKey(err), "MerkleBlockMessage header: "+err.Error())
 			} else if !headerClauses("MerkleBlockMessage header", &bh, &b.Header, hash, c) {
 				ok = false
 			}
@@ -657,7 +679,7 @@ func checkBlock(class string, b *model.Block) {
 				for i, raw := range gm.RawTxDatas {
 					t := &types.Tx{}
 					if err := t.UnmarshalText(raw); err != nil {
-						bad("msg-getter-error-merkleblock", err.Error())
+						bad(errKey(err), "MerkleBlockMessage tx: "+err.Error())
 					} else if !sameTx("MerkleBlockMessage", t, refs[i], refs[i].ref) {
 						ok = false
 					}
